@@ -66,9 +66,9 @@ def run_variant(prop, diff, worker, repo="/repo"):
         keys = [l.split("key=", 1)[1].strip() for l in r.stdout.splitlines() if l.strip().startswith("rule=") and "key=" in l]
         res = {0: "blind", 1: "fired", 2: "error"}.get(r.returncode, "error")
         if header_of(diff).get("expect") == "silent":
-            res = {0: "silent", 1: "false-alarm", 2: "error"}.get(r.returncode, "error")
+            res = {0: "silent", 1: "false-alarm", 2: "undecided"}.get(r.returncode, "error")
         out = {"variant": os.path.relpath(diff, VERIF), "result": res, "keys": keys[:6], "s": round(time.time() - t0, 1)}
-        if res == "error":
+        if res in ("error", "undecided"):
             out["why"] = (r.stdout.strip().splitlines() or ["?"])[-1][:300]
         return out
     finally:
@@ -108,7 +108,7 @@ def thorough_extras(mod, ctx, repo):
         import random
         random.Random(seed).shuffle(files)
     res = run_variants(ctx.prop, files, workers=int(os.environ.get("CTE_WORKERS", "8")), repo=repo or "/repo")
-    summ = {"fired": 0, "blind": 0, "skipped": 0, "error": 0, "silent": 0, "false-alarm": 0}
+    summ = {"fired": 0, "blind": 0, "skipped": 0, "error": 0, "silent": 0, "false-alarm": 0, "undecided": 0}
     for r in res:
         summ[r["result"]] += 1
     out["variants"] = {"summary": summ, "results": res, "wall_s": round(time.time() - t0, 1)}
